@@ -60,7 +60,10 @@ func (ServiceTimeoutError) Error() string {
 }
 
 func (s *Service) getInfo(ctx context.Context, c Call) error {
-	return c.replyGetInfo(ctx, s.vendor, s.product, s.version, s.url, s.names)
+	s.mutex.Lock()
+	names := append([]string(nil), s.names...)
+	s.mutex.Unlock()
+	return c.replyGetInfo(ctx, s.vendor, s.product, s.version, s.url, names)
 }
 
 func (s *Service) getInterfaceDescription(ctx context.Context, c Call, name string) error {
@@ -68,7 +71,9 @@ func (s *Service) getInterfaceDescription(ctx context.Context, c Call, name stri
 		return c.ReplyInvalidParameter(ctx, "interface")
 	}
 
+	s.mutex.Lock()
 	description, ok := s.descriptions[name]
+	s.mutex.Unlock()
 	if !ok {
 		return c.ReplyInvalidParameter(ctx, "interface")
 	}
@@ -103,7 +108,9 @@ func (s *Service) HandleMessage(ctx context.Context, conn ReadWriterContext, req
 	}
 
 	// Find the interface and method in our service
+	s.mutex.Lock()
 	iface, ok := s.interfaces[interfacename]
+	s.mutex.Unlock()
 	if !ok {
 		return c.ReplyInterfaceNotFound(ctx, interfacename)
 	}
@@ -113,9 +120,9 @@ func (s *Service) HandleMessage(ctx context.Context, conn ReadWriterContext, req
 
 // Shutdown shuts down the listener of a running service.
 func (s *Service) Shutdown() error {
-	s.running = false
 	s.mutex.Lock()
 	defer s.mutex.Unlock()
+	s.running = false
 	if s.listener == nil {
 		return nil
 	}
@@ -143,6 +150,12 @@ func (s *Service) handleConnection(ctx context.Context, conn net.Conn, wg *sync.
 	}
 
 	conn.Close()
+}
+
+func (s *Service) isRunning() bool {
+	s.mutex.Lock()
+	defer s.mutex.Unlock()
+	return s.running
 }
 
 func (s *Service) teardown() {
@@ -265,7 +278,7 @@ func (s *Service) Listen(ctx context.Context, address string, timeout time.Durat
 	l := s.listener
 	s.mutex.Unlock()
 
-	for s.running {
+	for s.isRunning() {
 		if timeout != 0 {
 			if err := s.refreshTimeout(timeout); err != nil {
 				return err
@@ -282,7 +295,7 @@ func (s *Service) Listen(ctx context.Context, address string, timeout time.Durat
 				s.mutex.Unlock()
 				continue
 			}
-			if !s.running {
+			if !s.isRunning() {
 				return nil
 			}
 			return err
@@ -314,7 +327,7 @@ func (s *Service) DoListen(ctx context.Context, timeout time.Duration) error {
 	s.running = true
 	s.mutex.Unlock()
 
-	for s.running {
+	for s.isRunning() {
 		if timeout != 0 {
 			if err := s.refreshTimeout(timeout); err != nil {
 				return err
@@ -331,7 +344,7 @@ func (s *Service) DoListen(ctx context.Context, timeout time.Duration) error {
 				s.mutex.Unlock()
 				continue
 			}
-			if !s.running {
+			if !s.isRunning() {
 				return nil
 			}
 			return err
@@ -349,6 +362,10 @@ func (s *Service) DoListen(ctx context.Context, timeout time.Duration) error {
 // RegisterInterface registers a varlink.Interface containing struct to the Service
 func (s *Service) RegisterInterface(iface dispatcher) error {
 	name := iface.VarlinkGetName()
+	description := iface.VarlinkGetDescription()
+
+	s.mutex.Lock()
+	defer s.mutex.Unlock()
 	if _, ok := s.interfaces[name]; ok {
 		return fmt.Errorf("interface '%s' already registered", name)
 	}
@@ -357,7 +374,7 @@ func (s *Service) RegisterInterface(iface dispatcher) error {
 		return fmt.Errorf("service is already running")
 	}
 	s.interfaces[name] = iface
-	s.descriptions[name] = iface.VarlinkGetDescription()
+	s.descriptions[name] = description
 	s.names = append(s.names, name)
 
 	return nil
